@@ -754,7 +754,7 @@ def create_rrel_scope_provider(rrel_tree_or_string, split_string=None, **kwargs)
 
     if rrel_tree_or_string.importURI:
         return RRELImportURI(
-            rrel_tree_or_string, split_string, rrel_tree_or_string.use_proxy, *kwargs
+            rrel_tree_or_string, split_string, rrel_tree_or_string.use_proxy, **kwargs
         )
     else:
         return RREL(rrel_tree_or_string, split_string, rrel_tree_or_string.use_proxy)
